@@ -401,3 +401,30 @@ V("c20-eq-blank-check", "C20", "E", DTY, '''        stripped = obj.strip()
         if stripped == "":
             return -1
         return int(stripped)''')
+
+# ---------------------------------------------------------------- second phase: rules added after the round-2 seeds
+V("c07-mutated-after-cache", ["C07", "C13"], "M", SII, "    group.path = filename_to_groupname(path)\n\n    if create_cache:\n        caching.create_cache(mapper, path, group)\n",
+  "    if create_cache:\n        caching.create_cache(mapper, path, group)\n\n    group.path = filename_to_groupname(path)\n", "written to the cache")
+V("c12-empty-float64", "C12", "M", ARR, "            if data_:\n                data = np.stack(data_, axis=0)\n            else:\n                data = np.empty((0, *self.shape[1:]), dtype=self.dtype)\n",
+  "            data = np.asarray(data_).reshape(-1, *self.shape[1:])\n", "dtype")
+V("c12-empty-untyped", "C12", "M", ARR, "data = np.empty((0, *self.shape[1:]), dtype=self.dtype)", "data = np.empty((0, *self.shape[1:]))", "dtype")
+V("c18-while-no-progress", "C18", "M", SIO, "    metadata = list(concat(adjusted))\n",
+  "    metadata = []\n    while len(metadata) < n_records:\n        metadata.extend(parse_maybe(f.read(record_size), record_size))\n",
+  "while", more=[(SIO, "def _adjust_offset(record, offset):", "def parse_maybe(content, element_size):\n    if not content:\n        return []\n    return parse_chunk(content, element_size)\n\n\ndef _adjust_offset(record, offset):")])
+V("c05-stateful-construct", ["C05", "C10", "C17"], "M", DTY, "        truncated = datetime.datetime.combine(reference_date.date(), datetime.time.min)\n",
+  "        truncated = datetime.datetime.combine(reference_date.date(), datetime.time.min)\n        self._last = truncated\n", "stores on the construct")
+V("c05-eq-construct-cache-static", ["C05", "C10", "C17"], "E", DTY, "    def _decode(self, obj, context, path):\n        return obj * self.factor\n",
+  "    def _decode(self, obj, context, path):\n        self._scale = self.factor\n        return obj * self.factor\n")
+V("c20-field-into-padding", "C20", "M", FAC, '"start_line_number_of_prf_switching" / AsciiInteger(8),\n    "blanks1" / PaddedString(8),', '"start_line_number_of_prf_switching" / AsciiInteger(12),\n    "blanks1" / PaddedString(4),', "padding")
+V("c14-greedy-keyword", "C14", "M", SUM, "(?P<keyword>.*?)", "(?P<keyword>.*)", "entry_re")
+V("c01-equal-requests", ["C01", "C06"], "M", SIO, "parse_chunk(f.read(chunksize * record_size), record_size) for chunksize in chunksizes",
+  "parse_chunk(f.read(records_per_chunk * record_size), record_size) for chunksize in chunksizes", "read_metadata")
+V("c01-eq-rename-private", ["C01", "C06", "C11", "C18"], "E", SIO, "_adjust_offset", "_shift_record", count=2)
+V("c01-eq-extract-layout", ["C01", "C06", "C11", "C18"], "E", SIO, "    n_chunks = math.ceil(n_records / records_per_chunk)\n    chunksizes = [",
+  "    chunksizes, chunk_offsets = _layout(n_records, record_size, records_per_chunk)\n    raw_metadata = (\n        parse_chunk(f.read(chunksize * record_size), record_size) for chunksize in chunksizes\n    )\n    adjusted = (\n        adjust_offsets(records, offset=offset)\n        for records, offset in zip(raw_metadata, chunk_offsets)\n    )\n    metadata = list(concat(adjusted))\n\n    return to_dict(header), to_dict(metadata)\n\n\ndef _layout(n_records, record_size, records_per_chunk):\n    n_chunks = math.ceil(n_records / records_per_chunk)\n    chunksizes = [",
+  more=[(SIO, "        offset * record_size + 720 for offset in itertools.accumulate(chunksizes, initial=0)\n    ]\n\n    raw_metadata = (", "        offset * record_size + 720 for offset in itertools.accumulate(chunksizes, initial=0)\n    ]\n    return chunksizes, chunk_offsets\n\n\ndef _unused(f, chunksizes, chunk_offsets, record_size, header):\n    raw_metadata = (")])
+V("c13-eq-imagery-loop", "C13", "E", IOO, '    imagery = Group(\n        "/imagery", url=mapper.root, data={group.name: group for group in imagery_groups}, attrs={}\n    )',
+  '    by_name = {}\n    for group in imagery_groups:\n        by_name[group.name] = group\n    imagery = Group("/imagery", url=mapper.root, data=by_name, attrs={})')
+V("c13-imagery-reversed", "C13", "M", IOO, "data={group.name: group for group in imagery_groups}", "data={group.name: group for group in reversed(imagery_groups)}", "imagery")
+V("c13-leader-gets-volume-file", "C13", "M", IOO, 'open_sar_leader(mapper, filenames["sar_leader"])', 'open_sar_leader(mapper, filenames["volume_directory"])', "sar_leader")
+V("c20-sibling-coupling", ["C20", "C03"], "M", SMD, '"number_of_lines_per_burst": lambda v: v if v != -1 else [],', '"number_of_lines_per_burst": lambda v: v if v > 0 else [],', "number_of_lines_per_burst")
